@@ -112,4 +112,31 @@ Section LM.
     apply (rdrive_drive N F (r_fresh zeroV s) (u, 0) (RInit s) f); [reflexivity| |exact Hns].
     exact (HM F N N HF HN HN).
   Qed.
+
+  (* Start(e) for any seq expression e (the optimiser may have removed the outer Delay): the expression
+     is evaluated first — only the value arguments of Bind run user code — then the value is started *)
+  Definition machine_sval (k : nat) (sv : Sem.sval V) (w : W) (N F : nat) : option final :=
+    let mg := start zeroV (Tv U V P aden cden tden kval yden env (Tt U V P aden cden tden kval yden env (S k)) sv) (empty_st V P w) in
+    mdrive N F (snd mg) (fst mg).
+
+  Definition machine_start (k : nat) (e : sexp) (u : U) (N F : nat) : option final :=
+    match build yden e (u, 0) with
+    | Ok u' sv => machine_sval k sv (u', 0) N F
+    | Panic u' pv => Some (FPanicked (u', 0) pv)
+    | Stuck => Some FStuck
+    end.
+
+  Theorem machine_link_sval k sv n w c :
+    lkv V k sv = true ->
+    run aden cden tden kval yden env true n sv w = Some c -> final_of c <> FStuck ->
+    exists M, forall N F, M <= N -> M <= F -> machine_sval k sv w N F = Some (final_of c).
+  Proof.
+    intros Hk H Hns. destruct (link_sval U V P aden cden tden kval yden env zeroV k sv n w c Hk H) as [M HM].
+    exists M. intros N F HN HF. unfold machine_sval.
+    set (s := Tv U V P aden cden tden kval yden env (Tt U V P aden cden tden kval yden env (S k)) sv).
+    destruct (start_grel zeroV s (empty_st V P w)) as [Hg [Hw _]].
+    rewrite (mdrive_rdrive N F _ _ _ _ Hg). rewrite Hw. cbn [world empty_st].
+    apply (rdrive_drive N F (r_fresh zeroV s) w (RInit s) (final_of c)); [reflexivity| |exact Hns].
+    exact (HM F N N HF HN HN).
+  Qed.
 End LM.
